@@ -42,7 +42,8 @@ def run_property(prop, tier, seed):
     if missed and code == 0:
       # a clean verdict from a checker that misses its own positive controls is
       # not a verdict
-      print('ANALYSIS-ERROR property=%s positive controls not reported: %s' %
+      print('ANALYSIS-ERROR property=%s self-test failed (seeded change not '
+            'reported / alarm on a behaviour-preserving refactoring): %s' %
             (prop, ', '.join(missed)))
       return 2
     return code
